@@ -276,8 +276,11 @@ def main():
     machinery = []
     singles = []
     for b, r in zip(batches, res):
-        if not r["compiled"]:
+        if not r["compiled"] or r.get("exit") != 0:
+            # does not compile, or the subject killed the probe process (abort, runaway
+            # allocation, segfault): rerun one definition at a time to name the offender
             singles.extend(b)
+            r["compiled"] = False
         else:
             absorb(r, violations, outcomes)
     # failing batches: one definition at a time
@@ -287,6 +290,11 @@ def main():
             outcomes["does-not-compile"] = outcomes.get("does-not-compile", 0) + 1
             first = [l for l in r["stderr"].splitlines() if "error" in l][:3]
             violations.append((f"C05|{did}|does-not-compile", {"definition_id": did, "definition": d.item(), "errors": r["errors"], "observed": " | ".join(x.split(": ", 1)[-1][:200] for x in first)}))
+        elif r.get("exit") != 0:
+            outcomes["probe-process-died"] = outcomes.get("probe-process-died", 0) + 1
+            absorb(r, violations, outcomes)
+            violations.append((f"C05|{did}|probe-process-died", {"definition_id": did, "definition": d.item(), "observed": f"the process exploring this definition died (exit {r.get('exit')}): {r.get('run_stderr', '')[-300:]}"}))
+            r["compiled"] = False
         else:
             absorb(r, violations, outcomes)
     for r in res + res1:
